@@ -18,6 +18,7 @@ struct ParamSpec {
     bool corr = false;	// unknown made by vnacal_make_correlated_parameter (kept near another parameter with a given sigma)
     int corr_other = -1;	// ... index of that other parameter in the engine's list (-1: predefined)
     std::vector<double> sigma_range;	// ... first and last frequency of its sigma vector (empty: one sigma for all frequencies)
+    std::vector<double> sf, sv;	// ... the sigma vector: frequencies (one entry: no frequency dependence) and values
     bool known() const { return kind != 3; }
 };
 
@@ -33,6 +34,15 @@ static inline bool param_frange(const ParamSpec &p, double &lo, double &hi)
 	have = true;
     }
     return have;
+}
+
+// sigma of a correlated parameter at a frequency that is one of its sigma knots (C10: "evaluates exactly to the supplied value at
+// each supplied frequency"); NaN if f is not a knot
+static inline double sigma_at_knot(const ParamSpec &p, double f)
+{
+    if (p.sf.size() <= 1) return p.sv.empty() ? NAN : p.sv[0];
+    for (size_t j = 0; j < p.sf.size(); ++j) if (fabs(p.sf[j] - f) <= 1e-9 * f) return p.sv[j];
+    return NAN;
 }
 
 // generating functions for frequency dependent standards: low-order rational in x = f / 1e9
@@ -79,6 +89,7 @@ struct SessionSpec {
     bool set_z0 = false;
     VnaWorld world;
     std::vector<StdSpec> stds;
+    int dead_f = -1;		// the instrument reads zero at this frequency index, whatever is connected (the system is singular there and only there)
 };
 
 static inline int ss_rows(const SessionSpec &s) { return s.R > 0 ? s.R : s.P; }
